@@ -44,7 +44,20 @@ impl Command for CommandImpl {
 
                 let target_path_str = &context.arguments[1];
 
-                if source_file {
+                // copying a file onto itself would truncate it before it is read
+                let same_file = match (
+                    fs::canonicalize(source_path_str),
+                    fs::canonicalize(target_path_str),
+                ) {
+                    (Ok(source_canonical), Ok(target_canonical)) => {
+                        source_canonical == target_canonical
+                    }
+                    _ => false,
+                };
+
+                if source_file && same_file {
+                    CommandResult::Continue(Some("true".to_string()))
+                } else if source_file {
                     match create_parent(target_path_str) {
                         Ok(_) => match fs::copy(source_path_str, target_path_str) {
                             Ok(_) => CommandResult::Continue(Some("true".to_string())),
